@@ -2,11 +2,13 @@
 decoys x listing orders (C13); destination pre-states and rebuild histories
 (C14, E3); hostile metafiles (C19).  Oracles: reference layout + snapshots +
 audit monitor."""
+import contextlib
 import itertools
 import os
+import resource
 import shutil
 
-from mc import core, e1, seams, tf, world
+from mc import core, e1, e2, fsshim, seams, tf, world
 from mc.ref import bencode, model
 
 REAL_B = e1.REAL_B
@@ -240,6 +242,105 @@ def run_rebuild(metas, searches, dest, route="lib"):
         return ("raised:" + type(e).__name__, str(e)[:120])
 
 
+# ------------------------------------------------------------ C19 observers
+def snap_outside(root, skip):
+    """world.snapshot(root) without the directory whose real path is `skip`
+    (the destination) and everything below it.  Symbolic links are recorded
+    as links and never followed."""
+    root = os.path.realpath(root)
+    out = {}
+    for dirpath, dirnames, filenames in os.walk(root):
+        dirnames.sort()
+        keep = []
+        for n in dirnames:
+            p = os.path.join(dirpath, n)
+            rel = os.path.relpath(p, root)
+            if os.path.islink(p):
+                out[rel] = ("l", 0, os.readlink(p), 0)
+                continue
+            if p == skip:
+                continue
+            out[rel] = ("d", 0, "", os.stat(p).st_mode & 0o7777)
+            keep.append(n)
+        dirnames[:] = keep
+        for n in sorted(filenames):
+            p = os.path.join(dirpath, n)
+            out[os.path.relpath(p, root)] = world._entry(p, False)
+    return out
+
+
+def events_outside(events, rd):
+    """Low-level mutating audit events whose object lies outside the real
+    destination path rd.  mkdir / rmdir / remove / rename / ... act on the
+    directory entry itself (the final path element is not followed); an open
+    for writing follows a symbolic link in the final element, so the file it
+    reaches is what counts."""
+    bad = []
+    for ev in events:
+        if ev[0] not in seams.LOWLEVEL:
+            continue
+        for p in ev[1:]:
+            if ev[0] in ("open-w", "open-create"):
+                rp = os.path.realpath(p)
+            else:
+                rp = os.path.join(os.path.realpath(os.path.dirname(p)),
+                                  os.path.basename(p))
+            if not (rp == rd or rp.startswith(rd + os.sep)):
+                bad.append(list(ev))
+                break
+    return bad
+
+
+@contextlib.contextmanager
+def fsize_limit(nbytes):
+    """The process' file size limit (RLIMIT_FSIZE, soft) lowered for the
+    duration of the block: a write beyond it is refused by the operating
+    system with EFBIG (CPython ignores SIGXFSZ).  Nothing of the harness writes
+    a regular file inside the block."""
+    if nbytes is None:
+        yield
+        return
+    old = resource.getrlimit(resource.RLIMIT_FSIZE)
+    resource.setrlimit(resource.RLIMIT_FSIZE, (nbytes, old[1]))
+    try:
+        yield
+    finally:
+        resource.setrlimit(resource.RLIMIT_FSIZE, old)
+
+
+@contextlib.contextmanager
+def working_dir(path):
+    if path is None:
+        yield
+        return
+    old = os.getcwd()
+    os.chdir(path)
+    try:
+        yield
+    finally:
+        os.chdir(old)
+
+
+# destination spellings (the directory is always <case>/outer/mid/dest)
+ENV_SPELL = ["canon", "slash", "dslash", "dot", "dotdot", "link",
+             "link-final", "rel", "rel-dot", "rel-up", "cwd"]
+# what else there is in and around the destination
+ENV_SURROUND = ["empty", "dest-empty", "populated", "absent"]
+ENV_META = ["dir", "dir2", "dotname", "empty", "single"]
+# how the operating system refuses the copy ("none": it does not)
+ENV_FAULT = ["none", "long-element", "long-path-mkdir", "long-path-open",
+             "fsize-0", "fsize-4096"]
+PATH_MAX = os.pathconf("/", "PC_PATH_MAX") if hasattr(os, "pathconf") else 4096
+
+# symbolic links planted in the destination before the rebuild
+LINK_KINDS = ["dir-out", "file-out-short", "file-out-long", "dangling-out",
+              "dir-up", "dir-out-2hop", "dir-in", "loop"]
+# what sits at the very path an entry is to be written to
+TARGET_KINDS = ["dir+link-file", "dir+link-dangling", "dir+link-dir",
+                "link-file-short", "link-file-long", "link-dangling",
+                "link-dir"]
+
+
 class RebuildCheck:
     def __init__(self, pid):
         self.id = pid
@@ -322,6 +423,49 @@ class RebuildCheck:
                 "destinations spelled relative to the working directory: "
                 "histories of two rebuilds with a chdir in between, the second "
                 "metafile aiming at the first destination (library and CLI)",
+                "the operating system refuses the copy of a verified candidate "
+                "of a metafile that stays inside the destination: a directory "
+                "element of 300 bytes (ENAMETOOLONG), a directory path longer "
+                "than PATH_MAX, a file path longer than PATH_MAX below a "
+                "directory that can still be made (the candidate of the same "
+                "name sits at a short path), the process' file size limit "
+                "(RLIMIT_FSIZE 0 and 4096 -> EFBIG), and no refusal as the "
+                "control; x metafile kind {one file two levels down, a refused "
+                "entry followed by a harmless one, name '.' with an 'a/../b' "
+                "element, zero-length file, single-file torrent} x destination "
+                "spelling {its real path, trailing '/', '//' inside, '/./', "
+                "'x/../x', through a symlinked directory, a symlink to the "
+                "destination itself, relative to the working directory as "
+                "'dest', './dest', '../outer/mid/dest', and '.' from inside} x "
+                "surroundings {destination and its two ancestors otherwise "
+                "empty, destination empty with populated ancestors, everything "
+                "populated, destination not yet existing in an empty parent} x "
+                "{library, CLI} (quick: CLI only with empty surroundings)",
+                "the same worlds with the refusal injected by the FS-operation "
+                "shim: every mkdir / open for writing / raw write / chmod of "
+                "the rebuild answers ENOSPC, EACCES, EROFS, EIO or writes "
+                "partially, one deviation per run (quick: 3 metafile kinds x "
+                "5 spellings x 2 surroundings, library)",
+                "symbolic links planted in the destination at dest/L, "
+                "dest/top/L and dest/top/d/L, leading to {a directory outside, "
+                "a shorter file outside, a longer file outside, a missing path "
+                "outside (with and without its parent), '..', a second link "
+                "inside that leads outside, a directory inside, itself}; "
+                "metafile name in {top, L, '.'} x path elements of length <= 2 "
+                "over {d, L, '..'} x file name in {f, L}, single-file "
+                "torrents named L and f, each with a full and a zero-length "
+                "file (thorough: also '' and '.' as name / element, CLI); "
+                "writing through a link that leads outside is writing outside",
+                "something already sits at the very path an entry is written "
+                "to (benign and dot-segment spellings that stay inside the "
+                "destination): a directory holding a symlink named like the "
+                "candidate, or a symlink, leading to a shorter / longer file, "
+                "a missing path or a directory outside",
+                "an open for writing is attributed to the file it reaches (a "
+                "symlink in the final path element is followed); attempted "
+                "low-level mutations outside the destination count even when "
+                "the operating system rejects them; the destination directory "
+                "itself is not judged; hard links are not planted",
             ],
         }[pid]
         self.rule = {
@@ -340,7 +484,13 @@ class RebuildCheck:
                    "destination + search trees; invariants evaluated on every "
                    "transition (snapshots + audit hook)",
             "C19": "full product of hostile names x path element sequences x "
-                   "version; transition = one rebuild on the real code; oracle "
+                   "version; + version x OS-level refusal of the copy x "
+                   "metafile kind x destination spelling x surroundings x "
+                   "route; + the same under the FS-operation shim, deviation "
+                   "bound 1; + version x kind of symlink planted in the "
+                   "destination x name x path elements x file name x "
+                   "{full, empty}; + version x pre-state at the target path x "
+                   "path; transition = one rebuild on the real code; oracle "
                    "= nothing outside the destination created, changed or "
                    "deleted (snapshot + audit hook)",
         }[pid]
@@ -356,6 +506,20 @@ class RebuildCheck:
                                "seed": seed})
                 gs.append({"kind": "hostile-rel", "version": ver,
                            "seed": seed})
+            for ver in (1, 2, 3):
+                # the operating system refuses the copy x destination
+                # spellings x surroundings
+                for fault in ENV_FAULT:
+                    gs.append({"kind": "env", "version": ver, "fault": fault,
+                               "seed": seed, "tier": tier})
+                gs.append({"kind": "env-shim", "version": ver, "seed": seed,
+                           "tier": tier})
+                # symbolic links planted in the destination
+                for lk in LINK_KINDS:
+                    gs.append({"kind": "links", "version": ver, "link": lk,
+                               "seed": seed, "tier": tier})
+                gs.append({"kind": "target-pre", "version": ver,
+                           "seed": seed, "tier": tier})
             return gs
         if self.id == "C14":
             for fam in FAMILIES:
@@ -1274,10 +1438,487 @@ class RebuildCheck:
                         shutil.rmtree(sb, ignore_errors=True)
         return found
 
+    # ------------------------------------------- C19: the copy is refused
+    @staticmethod
+    def _encode(ver, name, tree, P):
+        if ver == 1:
+            m = model.ref_v1(name, tree, P)
+        elif ver == 2:
+            m = model.ref_v2(name, tree, P, REAL_B)
+        else:
+            m = model.ref_hybrid(name, tree, P, REAL_B)
+        return bencode.encode(m)
+
+    @staticmethod
+    def env_exists(c):
+        mk, fault, spell, sur = c["meta"], c["fault"], c["spell"], \
+            c["surround"]
+        if sur == "absent" and spell in ("link-final", "cwd"):
+            return False
+        if mk == "single" and fault.startswith("long-"):
+            return False
+        if mk == "empty" and fault.startswith("fsize-"):
+            return False        # an empty file never reaches the limit
+        return True
+
+    def env_case(self, c, res, run=None):
+        """One rebuild of a metafile that stays inside the destination, whose
+        candidate verifies, and whose copy the operating system refuses (or
+        not: fault 'none').  Axes: version, metafile kind, kind of refusal,
+        spelling of the destination argument, what else is in and around the
+        destination, route.  With `run` (an e2.Run) the refusal comes from the
+        FS-operation shim instead (ENOSPC / EACCES / EROFS / EIO at one
+        mkdir / open / write / chmod).  Returns [(sig, case, detail)], or None
+        when the combination does not exist."""
+        ver, mk, fault = c["version"], c["meta"], c["fault"]
+        spell, sur, route, seed = c["spell"], c["surround"], c["route"], \
+            c["seed"]
+        if not self.env_exists(c):
+            return None
+        P = 16384
+        data = world.content(seed, 0, P + 3)
+        data2 = world.content(seed, 1, P + 9)
+        cr = os.path.realpath(world.fresh_dir("c19e_"))
+        try:
+            search = os.path.join(cr, "search")
+            mid = os.path.join(cr, "outer", "mid")
+            rd = os.path.join(mid, "dest")
+            os.makedirs(mid)
+            os.mkdir(search)
+            if sur != "absent":
+                os.mkdir(rd)
+            if sur in ("dest-empty", "populated"):
+                world.write_file(os.path.join(cr, "outer", "other.txt"),
+                                 b"other")
+                world.write_file(os.path.join(mid, "sibling.txt"), b"sibling")
+            if sur == "populated":
+                world.write_file(os.path.join(rd, "keep.txt"), b"keep")
+            cwd = None
+            if spell == "canon":
+                given = rd
+            elif spell == "slash":
+                given = rd + os.sep
+            elif spell == "dslash":
+                given = mid + os.sep + os.sep + "dest"
+            elif spell == "dot":
+                given = os.path.join(mid, ".", "dest")
+            elif spell == "dotdot":
+                given = os.path.join(cr, "outer", "mid", "..", "mid", "dest")
+            elif spell == "link":
+                os.symlink(os.path.join(cr, "outer"), os.path.join(cr, "lnk"))
+                given = os.path.join(cr, "lnk", "mid", "dest")
+            elif spell == "link-final":
+                os.symlink(rd, os.path.join(cr, "dlnk"))
+                given = os.path.join(cr, "dlnk")
+            elif spell == "rel":
+                cwd, given = mid, "dest"
+            elif spell == "rel-dot":
+                cwd, given = mid, os.path.join(".", "dest")
+            elif spell == "rel-up":
+                cwd, given = search, os.path.join("..", "outer", "mid", "dest")
+            elif spell == "cwd":
+                cwd, given = rd, "."
+            else:
+                raise ValueError(spell)
+            # where the metafile's one directory ends up below the destination
+            stem = {"dir": ("n", "sub"), "dir2": ("n", "a"),
+                    "dotname": ("b",), "empty": ("n", "sub"),
+                    "single": ()}[mk]
+            fname, extra, limit = "f", (), None
+            if fault == "long-element":
+                # a directory name no filesystem here stores (NAME_MAX 255)
+                extra = ("x" * 300,)
+            elif fault == "long-path-mkdir":
+                # every element is storable, the directory path is too long
+                extra = ("y" * 250,) * (PATH_MAX // 251 + 1)
+            elif fault == "long-path-open":
+                # the parent directory can be made (path of ~4050 bytes), the
+                # path of the file itself is longer than PATH_MAX; the
+                # candidate of the same name sits at a short path
+                fname = "F" * 100
+                need = PATH_MAX - 46 - (len(rd) + sum(1 + len(e)
+                                                      for e in stem))
+                ext = []
+                while need >= 2:
+                    e = min(250, need - 1)
+                    ext.append("y" * e)
+                    need -= e + 1
+                extra = tuple(ext)
+            elif fault.startswith("fsize-"):
+                limit = int(fault[6:])
+            body = b"" if mk == "empty" else data
+            if mk == "dir":
+                name, tree = "n", {("sub",) + extra + (fname,): body}
+            elif mk == "dir2":
+                # the refused entry comes first, a harmless one follows
+                name, tree = "n", {("a",) + extra + (fname,): body,
+                                   ("z", "g"): data2}
+                world.write_file(os.path.join(search, "g"), data2)
+            elif mk == "dotname":
+                # hostile spellings that stay inside the destination
+                name, tree = ".", {("a/../b",) + extra + (fname,): body}
+            elif mk == "empty":
+                name, tree = "n", {("sub",) + extra + (fname,): body}
+                world.write_file(os.path.join(search, "full", fname), data)
+            else:
+                name, tree = fname, {(): body}
+            world.write_file(os.path.join(search, fname), body)
+            mp = os.path.join(cr, "m.torrent")
+            with open(mp, "wb") as f:
+                f.write(self._encode(ver, name, tree, P))
+            before = snap_outside(cr, rd)
+            shim = None
+            with working_dir(cwd), seams.Audit(None) as audit:
+                if run is not None:
+                    shim = fsshim.FsShim(run, cr, fault_reads=False,
+                                         crashes=False)
+                    with shim:
+                        st, cnt = run_rebuild([mp], [search], given, route)
+                else:
+                    with fsize_limit(limit):
+                        st, cnt = run_rebuild([mp], [search], given, route)
+            after = snap_outside(cr, rd)
+            res.transitions += 1
+            res.evals += 1
+            res.states += 1
+            res.validated += 1
+            ch = sorted(k for k in set(before) | set(after)
+                        if before.get(k) != after.get(k))
+            bad_ev = events_outside(audit.events, rd)
+            prob = None
+            if ch:
+                prob = "changed-outside-destination"
+            elif bad_ev:
+                prob = "mutating-event-outside-destination"
+            copied = False
+            for dirpath, _d, files_ in os.walk(rd):
+                if fname in files_ and os.path.getsize(
+                        os.path.join(dirpath, fname)) == len(body):
+                    copied = True
+            what = fault
+            vector = None
+            if run is not None:
+                dev = [lab for ch_, (n_, lab) in zip(run.choices, run.points)
+                       if ch_]
+                what = "shim-" + (dev[0].split(":")[0] if dev else "no-fault")
+                vector = [[ch_, list(pt)] for ch_, pt in
+                          zip(run.choices, run.points)]
+            res.outcomes[f"env:{what}:{'copied' if copied else 'not-copied'}"
+                         f"/{st.split(':')[0]}/{prob or 'ok'}"] += 1
+            if fault == "none" and not copied:
+                res.extra["env_control_not_copied"] += 1
+            if fault not in ("none", "shim") and copied:
+                res.extra["env_refusal_did_not_strike"] += 1
+            if not prob:
+                return []
+            refused = "copy-succeeds" if what in ("none", "shim-no-fault") \
+                else "copy-refused-by-the-os"
+            sig = (f"C19|v{ver}|{prob}|{refused}|destination-" +
+                   ("spelled-canonically" if spell == "canon" else
+                    "not-spelled-as-its-real-path"))
+            case = dict(c, kind="env")
+            if vector is not None:
+                case["vector"] = vector
+            return [(sig, case, {"changed": ch[:5], "events": bad_ev[:4],
+                                 "given": given.replace(cr, "<case>"),
+                                 "cwd": cwd and cwd.replace(cr, "<case>"),
+                                 "rebuild": st, "fault": what,
+                                 "shim_fault": shim.fault if shim else None})]
+        finally:
+            shutil.rmtree(cr, ignore_errors=True)
+
+    def run_env(self, g, res):
+        quick = g["tier"] == "quick"
+        found = []
+        n = 0
+        for mk in ENV_META:
+            for spell in ENV_SPELL:
+                for sur in ENV_SURROUND:
+                    for route in ("lib", "cli"):
+                        if quick and route == "cli" and sur != "empty":
+                            continue
+                        c = {"version": g["version"], "meta": mk,
+                             "fault": g["fault"], "spell": spell,
+                             "surround": sur, "route": route,
+                             "seed": g["seed"]}
+                        r = self.env_case(c, res)
+                        if r is None:
+                            continue
+                        n += 1
+                        found += r
+        res.sample({"kind": "env", "version": g["version"],
+                    "fault": g["fault"], "cases": n})
+        return found
+
+    def run_env_shim(self, g, res):
+        """The same worlds with the refusal injected by the FS-operation shim:
+        every mkdir / open for writing / raw write / chmod of the rebuild is a
+        choice point {proceed, ENOSPC, EACCES, EROFS, EIO, partial write},
+        explored to one deviation."""
+        quick = g["tier"] == "quick"
+        found = []
+        runs = 0
+        metas = ["dir", "empty", "single"] if quick else ENV_META
+        spells = ["canon", "slash", "dotdot", "link", "rel"] if quick \
+            else ENV_SPELL
+        surs = ["empty", "absent"] if quick else ENV_SURROUND
+        for mk in metas:
+            for spell in spells:
+                for sur in surs:
+                    c = {"version": g["version"], "meta": mk, "fault": "shim",
+                         "spell": spell, "surround": sur, "route": "lib",
+                         "seed": g["seed"]}
+                    if not self.env_exists(c):
+                        continue
+                    ex = e2.Explorer(1, max_runs=5000)
+                    for _run, r in ex.explore(
+                            lambda run: self.env_case(c, res, run=run)):
+                        found += r
+                    runs += ex.runs
+                    if ex.capped:
+                        res.extra["env_shim_capped"] += 1
+        res.extra["env_shim_deviation_bound_completed"] = 1
+        res.sample({"kind": "env-shim", "version": g["version"],
+                    "runs": runs})
+        return found
+
+    # ------------------------------- C19: symbolic links in the destination
+    @staticmethod
+    def _deep(cr, *tail):
+        return os.path.join(cr, "o0", "o1", "o2", *tail)
+
+    def link_case(self, c, res):
+        """The destination holds dest/top/d/ and, at dest/L, dest/top/L and
+        dest/top/d/L, symbolic links of one kind; the metafile's name and path
+        elements range over {top, d, L, '..', '.', ''} and candidates named f
+        and L verify.  Writing through a link that leads outside is writing
+        outside."""
+        ver, kind, seed = c["version"], c["link"], c["seed"]
+        P = 16384
+        data = world.content(seed, 0, P + 3)
+        body = b"" if c["empty"] else data
+        cr = os.path.realpath(world.fresh_dir("c19l_"))
+        try:
+            rd = os.path.join(cr, *[f"l{i}" for i in range(6)], "dest")
+            os.makedirs(os.path.join(rd, "top", "d"))
+            search = os.path.join(cr, "search")
+            for n_ in ("f", "L"):
+                world.write_file(os.path.join(search, n_), data)
+                world.write_file(os.path.join(search, "empty", n_), b"")
+            spots = [os.path.join(rd, "L"), os.path.join(rd, "top", "L"),
+                     os.path.join(rd, "top", "d", "L")]
+            for i, lp in enumerate(spots):
+                out = self._deep(cr, f"out{i}")
+                if kind in ("dir-out", "dir-out-2hop"):
+                    for rel in (("f",), ("L",), ("d", "f"), ("d", "L")):
+                        world.write_file(os.path.join(out, *rel), b"vic")
+                    if kind == "dir-out":
+                        os.symlink(out, lp)
+                    else:
+                        hop = os.path.join(rd, f"hop{i}")
+                        os.symlink(out, hop)
+                        os.symlink(hop, lp)
+                elif kind in ("file-out-short", "file-out-long"):
+                    world.write_file(os.path.join(out, "victim"),
+                                     b"vic" if kind == "file-out-short"
+                                     else data + b"longer")
+                    os.symlink(os.path.join(out, "victim"), lp)
+                elif kind == "dangling-out":
+                    if i % 2 == 0:
+                        os.makedirs(out)
+                        os.symlink(os.path.join(out, "nothing"), lp)
+                    else:
+                        os.makedirs(self._deep(cr), exist_ok=True)
+                        os.symlink(self._deep(cr, f"noparent{i}", "nothing"),
+                                   lp)
+                elif kind == "dir-up":
+                    os.symlink("..", lp)
+                elif kind == "dir-in":
+                    os.symlink(os.path.join(rd, "top", "d"), lp)
+                elif kind == "loop":
+                    os.symlink("L", lp)
+                else:
+                    raise ValueError(kind)
+            if c["single"]:
+                tree = {(): body}
+            else:
+                tree = {tuple(c["seq"]) + (c["last"],): body}
+            mp = os.path.join(cr, "m.torrent")
+            with open(mp, "wb") as f:
+                f.write(self._encode(ver, c["name"], tree, P))
+            before = snap_outside(cr, rd)
+            inside_before = world.snapshot(rd)
+            with seams.Audit(None) as audit:
+                st, cnt = run_rebuild([mp], [search], rd,
+                                      c.get("route") or "lib")
+            after = snap_outside(cr, rd)
+            res.transitions += 1
+            res.evals += 1
+            res.states += 1
+            res.validated += 1
+            ch = sorted(k for k in set(before) | set(after)
+                        if before.get(k) != after.get(k))
+            bad_ev = events_outside(audit.events, rd)
+            prob = None
+            if ch:
+                prob = "changed-outside-destination"
+            elif bad_ev:
+                prob = "mutating-event-outside-destination"
+            wrote = world.snapshot(rd) != inside_before
+            res.outcomes[f"links:{kind}:{'wrote-inside' if wrote else 'wrote-nothing'}"
+                         f"/{st.split(':')[0]}/{prob or 'ok'}"] += 1
+            if not prob:
+                return []
+            sig = (f"C19|v{ver}|{prob}|symlink-in-destination:{kind}" +
+                   ("+empty-file" if c["empty"] else ""))
+            return [(sig, dict(c, kind="links"),
+                     {"changed": ch[:5], "events": bad_ev[:4],
+                      "rebuild": st})]
+        finally:
+            shutil.rmtree(cr, ignore_errors=True)
+
+    @staticmethod
+    def link_paths(quick):
+        names = ["top", "L", "."] if quick else ["top", "L", ".", ""]
+        alpha = ["d", "L", ".."] if quick else ["d", "L", "..", ".", ""]
+        seqs = [()] + [(a,) for a in alpha] + list(
+            itertools.product(alpha, repeat=2))
+        out = []
+        for name in names:
+            for seq in seqs:
+                for last in ("f", "L"):
+                    out.append((name, seq, last, False))
+        out += [("L", (), None, True), ("f", (), None, True)]
+        return out
+
+    def run_links(self, g, res):
+        found = []
+        n = 0
+        routes = ("lib",) if g["tier"] == "quick" else ("lib", "cli")
+        for name, seq, last, single in self.link_paths(g["tier"] == "quick"):
+            for empty in (False, True):
+                for route in routes:
+                    found += self.link_case(
+                        {"version": g["version"], "link": g["link"],
+                         "name": name, "seq": list(seq), "last": last,
+                         "single": single, "empty": empty, "route": route,
+                         "seed": g["seed"]}, res)
+                    n += 1
+        res.sample({"kind": "links", "version": g["version"],
+                    "link": g["link"], "cases": n})
+        return found
+
+    def target_case(self, c, res):
+        """Something already sits at the very path an entry is to be written
+        to (inside the destination): a directory holding a symbolic link that
+        is named like the candidate, or a symbolic link, each leading to a
+        file / nothing / a directory outside the destination."""
+        ver, tk, seed = c["version"], c["target"], c["seed"]
+        P = 16384
+        data = world.content(seed, 0, P + 3)
+        body = b"" if c["empty"] else data
+        cr = os.path.realpath(world.fresh_dir("c19t_"))
+        try:
+            rd = os.path.join(cr, *[f"l{i}" for i in range(6)], "dest")
+            os.makedirs(rd)
+            parts = [c["name"]] + ([] if c["single"] else
+                                   list(c["seq"]) + ["f"])
+            rt = os.path.realpath(os.path.join(rd, *parts))
+            if not rt.startswith(rd + os.sep):
+                return None     # the entry does not point into the destination
+            search = os.path.join(cr, "search")
+            world.write_file(os.path.join(search, "f"), data)
+            world.write_file(os.path.join(search, "empty", "f"), b"")
+            out = self._deep(cr, "out")
+            os.makedirs(out)
+            to = tk.split("link-")[1]
+            if to.startswith("file"):
+                tgt = os.path.join(out, "victim")
+                world.write_file(tgt, data + b"longer" if to == "file-long"
+                                 else b"vic")
+            elif to == "dangling":
+                tgt = os.path.join(out, "nothing")
+            else:
+                tgt = os.path.join(out, "dir")
+                world.write_file(os.path.join(tgt, "f"), b"vic")
+            if tk.startswith("dir+"):
+                os.makedirs(rt)
+                os.symlink(tgt, os.path.join(rt, "f"))
+            else:
+                os.makedirs(os.path.dirname(rt), exist_ok=True)
+                os.symlink(tgt, rt)
+            tree = {(): body} if c["single"] else \
+                {tuple(c["seq"]) + ("f",): body}
+            mp = os.path.join(cr, "m.torrent")
+            with open(mp, "wb") as f:
+                f.write(self._encode(ver, c["name"], tree, P))
+            before = snap_outside(cr, rd)
+            with seams.Audit(None) as audit:
+                st, cnt = run_rebuild([mp], [search], rd,
+                                      c.get("route") or "lib")
+            after = snap_outside(cr, rd)
+            res.transitions += 1
+            res.evals += 1
+            res.states += 1
+            res.validated += 1
+            ch = sorted(k for k in set(before) | set(after)
+                        if before.get(k) != after.get(k))
+            bad_ev = events_outside(audit.events, rd)
+            prob = None
+            if ch:
+                prob = "changed-outside-destination"
+            elif bad_ev:
+                prob = "mutating-event-outside-destination"
+            res.outcomes[f"target:{tk}/{st.split(':')[0]}/{prob or 'ok'}"] += 1
+            if not prob:
+                return []
+            sig = (f"C19|v{ver}|{prob}|at-the-target-path:{tk}" +
+                   ("+empty-file" if c["empty"] else ""))
+            return [(sig, dict(c, kind="target-pre"),
+                     {"changed": ch[:5], "events": bad_ev[:4],
+                      "rebuild": st,
+                      "target": rt.replace(cr, "<case>")})]
+        finally:
+            shutil.rmtree(cr, ignore_errors=True)
+
+    def run_target_pre(self, g, res):
+        found = []
+        n = 0
+        alpha = ["d", "..", "."]
+        seqs = [()] + [(a,) for a in alpha] + list(
+            itertools.product(alpha, repeat=2))
+        paths = [(name, seq, False) for name in ("top", ".")
+                 for seq in seqs] + [("f", (), True)]
+        routes = ("lib",) if g["tier"] == "quick" else ("lib", "cli")
+        for tk in TARGET_KINDS:
+            for name, seq, single in paths:
+                for empty in (False, True):
+                    for route in routes:
+                        r = self.target_case(
+                            {"version": g["version"], "target": tk,
+                             "name": name, "seq": list(seq),
+                             "single": single, "empty": empty,
+                             "route": route, "seed": g["seed"]}, res)
+                        if r is None:
+                            res.extra["target_cases_pointing_outside"] += 1
+                            continue
+                        n += 1
+                        found += r
+        res.sample({"kind": "target-pre", "version": g["version"],
+                    "cases": n})
+        return found
+
     # ------------------------------------------------------------ driver
     def run_group(self, g):
         res = core.Result()
         seed = g["seed"]
+        if g["kind"] in ("env", "env-shim", "links", "target-pre"):
+            fn = {"env": self.run_env, "env-shim": self.run_env_shim,
+                  "links": self.run_links,
+                  "target-pre": self.run_target_pre}[g["kind"]]
+            for sig, case, d in fn(g, res):
+                res.violation(sig, case, d)
+            return res
         if g["kind"] == "hostile-rel":
             for sig, case, d in self.run_hostile_rel(g, res):
                 res.violation(sig, case, d)
@@ -1402,6 +2043,24 @@ class RebuildCheck:
                 and f[1].get("link") == case.get("link")
                 and f[1].get("victims") == case.get("victims")
                 and f[1].get("benign_first") == case.get("benign_first")]
+        elif kind == "env":
+            run = None
+            if case.get("vector") is not None:
+                run = e2.Run([(ch, tuple(pt)) for ch, pt in case["vector"]])
+            found = self.env_case(
+                {k: case[k] for k in ("version", "meta", "fault", "spell",
+                                      "surround", "route", "seed")},
+                res, run=run) or []
+        elif kind == "links":
+            found = self.link_case(
+                {k: case.get(k) for k in ("version", "link", "name", "seq",
+                                          "last", "single", "empty", "route",
+                                          "seed")}, res)
+        elif kind == "target-pre":
+            found = self.target_case(
+                {k: case.get(k) for k in ("version", "target", "name", "seq",
+                                          "single", "empty", "route",
+                                          "seed")}, res) or []
         elif kind == "prestate":
             w = case["world"]
             files = world.files_of(w, case["seed"])
